@@ -2,6 +2,7 @@
 from .engine import rule, Result
 from .mir import *
 from .sym import *
+from . import pathsem
 
 ID_T = 'entity::identifier::Identifier'
 
@@ -196,34 +197,43 @@ def p9_length_bookkeeping(prog):
             continue
         seen.add(name)
         kind, val, walks = expect[name]
-        wblocks = [cb for cb, ct in body.calls(lambda c: c['name'] in walks)]
-        if not wblocks:
-            r.viol('P9', f.path + '/no-walk', f.loc(), 'row operation does not call its column walk %s' % (walks,))
-        if len(writes) != 1:
-            r.viol('P9', f.path + '/multiple-writes', f.loc(), 'expected exactly one write to self.length, found %d' % len(writes))
-        for b, i, s in writes:
-            rv = s['rv']
+        E = pathsem.analyse(prog, f)
+        if E.truncated:
+            r.viol('P9', f.path + '/not-analysable', f.loc(), 'path enumeration cut off')
+            continue
+        lidx = adt_field_index(prog, 'archetype::Archetype', 'length')
+        done = set()
+
+        def once(k, ln, msg):
+            if k not in done:
+                done.add(k)
+                r.viol('P9', f.path + '/' + k, f.loc(ln), msg)
+        for p in E.paths:
+            if p.ended != 'return':
+                continue
+            stores = [e for e in p.events if e['k'] == 'store' and pathsem.is_field_of(e['loc'], 'archetype::Archetype', lidx)]
+            wcalls = [e for e in p.events if e['k'] == 'call' and e['name'] in walks]
+            if not wcalls:
+                once('no-walk', None, 'row operation does not call its column walk %s on some path' % (walks,))
+            if not stores:
+                once('length-skippable', None, 'a path through %s returns without updating self.length' % name)
+                continue
+            st = stores[-1]
+            old = st['loc']
             ok = False
             if kind == 'set':
-                ok = rv['k'] == 'use' and op_const(rv['op']) is not None and op_const(rv['op']).get('val') == val
-            elif kind == 'delta':
-                if rv['k'] == 'binop' and rv['op'].startswith('Add' if val > 0 else 'Sub'):
-                    ok = receiver_name(prog, body, rv['a']) == 'self.length' and op_const(rv['b']) is not None and op_const(rv['b']).get('val') == abs(val)
-            elif kind == 'delta_len':
-                if rv['k'] == 'binop' and rv['op'].startswith('Add') and receiver_name(prog, body, rv['a']) == 'self.length':
-                    # addend must come from entities.component_len() / batch len
-                    l = op_local(rv['b'])
-                    d = single_def(body, l) if l is not None else None
-                    while d and d[0] == 'assign' and d[3]['rv']['k'] == 'use' and op_local(d[3]['rv']['op']) is not None:
-                        d = single_def(body, op_local(d[3]['rv']['op']))
-                    ok = bool(d and d[0] == 'call' and d[2]['f']['name'] in ('component_len', 'len'))
+                ok = st['value'] == ('c', val)
+            else:
+                d = pathsem.lin(st['value']) - pathsem.lin(old)
+                if kind == 'delta':
+                    ok = d.is_const() and d.const == val
+                else:
+                    ok = d.const == 0 and len(d.terms) == 1 and list(d.terms.values()) == [1] and \
+                        all(isinstance(t, tuple) and t[0] == 'call' and t[1].rsplit('::', 1)[-1] in ('component_len', 'len') for t in d.terms)
             if not ok:
-                r.viol('P9', f.path + '/wrong-delta', f.loc(s['ln']), 'write to self.length is not the expected %s %s' % (kind, val))
-            # published after the walk and on every path to return
-            if wblocks and not all(body.dominates(w, b) for w in wblocks):
-                r.viol('P9', f.path + '/length-before-walk', f.loc(s['ln']), 'self.length is updated before the column walk it accounts for')
-            if not body.must_pass(0, [b], body.return_blocks()):
-                r.viol('P9', f.path + '/length-skippable', f.loc(s['ln']), 'a path through %s returns without updating self.length' % name)
+                once('wrong-delta', st['ln'], 'write to self.length (%s) is not the expected %s %s' % (pathsem.tstr(st['value']), kind, val))
+            if any(w['i'] > s2['i'] for w in wcalls for s2 in stores):
+                once('length-before-walk', st['ln'], 'self.length is updated before the column walk it accounts for')
     for name in list(expect) + ['clone_from']:
         if name not in seen:
             r.viol('P9', 'missing/' + name, '-', 'expected writer of Archetype.length not found: %s' % name)
@@ -417,17 +427,54 @@ def p10_row_identifier_correspondence(prog):
         else:
             if not (body.dominates(nx[0][0], ps[0][0]) and nx[0][0] in body.reachable_after(ps[0][0])):
                 r.viol('P10', 'allocate_batch/pairing', f.loc(), 'location and identifier of a reused slot are not produced in the same loop iteration')
-        # fresh part: closure building Identifier::new(slots_len + index, 0)
-        okc = False
-        for g in f.closures():
-            for b, t in g.body.calls(lambda c: c['name'] == 'new' and 'entity::identifier::Identifier' in c['path']):
-                se = SymEval(prog, g.body)
-                idx = se.operand(t['args'][0], (b, None))
-                gen = op_const(t['args'][1])
-                if idx is not None and len(idx.terms) == 2 and all(v == 1 for v in idx.terms.values()) and idx.const == 0 and gen is not None and gen.get('val') == 0:
-                    okc = True
-        if not okc:
-            r.viol('P10', 'allocate_batch/fresh-numbering', f.loc(), 'identifiers of fresh slots must be (slots_len + i, generation 0) in iteration order')
+        # fresh part: Identifier::new(slots_len + i, 0) for i in 0..remaining, in iteration order
+        E = pathsem.analyse(prog, f)
+        slots_i = adt_field_index(prog, 'entity::allocator::Allocator', 'slots')
+        bad = None
+        nret = 0
+        for p in E.paths:
+            if p.ended != 'return':
+                continue
+            nret += 1
+            news = [e for e in p.calls(lambda e: e['name'] == 'new' and 'entity::identifier::Identifier' in e['path'])
+                    if pathsem.mentions(e['args'][0], lambda t: t[0] == 'elem' and pathsem.mentions(t, lambda u: u[0] == 'agg' and u[1].startswith('core::ops::Range')))]
+            ext = [e for e in p.calls(lambda e: e.get('consumer') and pathsem.tstr(e['args'][0]).endswith('self.%d' % slots_i))]
+            nexts = [e for e in p.calls(lambda e: e['path'] == 'core::iter::Iterator::next')]
+            if len(news) != 1 or len(ext) != 1:
+                bad = 'expected one Identifier::new over an index range and one extension of self.slots per path (found %d, %d)' % (len(news), len(ext))
+                break
+            n, x = news[0], ext[0]
+            if n['args'][1] != ('c', 0):
+                bad = 'fresh identifiers must have generation 0'
+                break
+            L = pathsem.lin(n['args'][0])
+            elems = [t for t in L.terms if isinstance(t, tuple) and t[0] == 'elem']
+            if len(elems) != 1 or L.terms[elems[0]] != 1:
+                bad = 'index of a fresh identifier is not (start + i)'
+                break
+            rng = [u for u in pathsem.subterms(elems[0]) if u[0] == 'agg' and u[1].startswith('core::ops::Range')][0]
+            lo, hi = pathsem.lin(rng[4][0]), pathsem.lin(rng[4][1])
+            start = (L - Lin.atom(elems[0])) + lo
+            count = hi - lo
+
+            def is_len_of_slots(t):
+                return isinstance(t, tuple) and t[0] == 'call' and t[1].endswith('::len') and pathsem.tstr(t[2][0]).endswith('self.%d' % slots_i)
+
+            def is_len_of_locs(t):
+                return isinstance(t, tuple) and t[0] == 'call' and t[1].endswith('::len') and not is_len_of_slots(t)
+            st_atoms = list(start.terms.items())
+            if not (start.const == 0 and len(st_atoms) == 1 and st_atoms[0][1] == 1 and is_len_of_slots(st_atoms[0][0]) and st_atoms[0][0][4] <= x['epoch']):
+                bad = 'fresh identifiers must start at the number of slots before the new slots are appended (start = %s)' % start
+                break
+            pos = [t for t, c in count.terms.items() if c == 1]
+            neg = [t for t, c in count.terms.items() if c == -1]
+            ok_a = count.const == 0 and len(count.terms) == 1 and len(pos) == 1 and is_len_of_locs(pos[0]) and pos[0][4] <= x['epoch'] and all(pos[0][4] > e['epoch'] for e in nexts)
+            ok_b = count.const == 0 and len(count.terms) == 2 and len(pos) == 1 and len(neg) == 1 and is_len_of_slots(pos[0]) and pos[0][4] > x['epoch'] and neg[0] == st_atoms[0][0]
+            if not (ok_a or ok_b):
+                bad = 'the number of fresh identifiers (%s) is not the number of locations left after slot reuse' % count
+                break
+        if bad or not nret or E.truncated:
+            r.viol('P10', 'allocate_batch/fresh-numbering', f.loc(), 'identifiers of fresh slots must be (slots_len + i, generation 0) in iteration order: %s' % (bad or 'no analysable path'))
     # ---- Locations::next
     fs = [g for g in prog.fns.values() if g.name == 'next' and g.impl and is_adt(g.impl['self'], 'entity::allocator::locations::Locations')]
     if len(fs) != 1:
